@@ -14,7 +14,7 @@ RINV = pow(R, -1, P)
 TRUSTED = [
     "Coq 8.16.1 kernel and its bytecode VM (vm_compute in Lucas.v and table checks); no native_compute",
     "tools/rs2v.py translator and coq/lib/Word.v semantics of Rust u64/u128/i64/i128 operators",
-    "extraction: ExtrOcamlBasic + ExtrOcamlZBigInt (all of its Extract Inductive/Constant directives for positive, N, Z -> zarith), OCaml 4.13.1, zarith 1.12",
+    "extraction: ExtrOcamlBasic + ExtrOcamlZBigInt (all of its Extract Inductive/Constant directives for positive, N, Z -> zarith), OCaml 4.13.1, zarith 1.12; cross-checked on every run against a pure ExtrOcamlBasic-only extraction of the same base-field model on a 3000-case sample (extra_checks)",
     "correspondence harness (harness/src/c01.rs), oracle driver (ocaml/c01.ml), case generator (tools/props/c01.py)",
     "modelled by hand, tied by correspondence only: mod_pow loop, inverse addition chain, batch_inversion, XFieldElement operations (inverse modelled by closed-form adjugate instead of polynomial xgcd), From/TryFrom glue",
     "verified through the translator (theorems re-checked on regenerated definitions): montyred, new, value, Add, Sub, Mul, Neg, mod_reduce (From<u128>), From<i64> match, bfe_to_i64, XFieldElement * XFieldElement",
@@ -195,3 +195,48 @@ def cases(tier, rng):
         out.append(("random-xfe", "%s %s" % (rng.choice(("xmul", "xadd", "xsub", "xdiv")), t)))
         out.append(("random-xfe", "xinv %d %d %d" % (r64(), r64(), r64())))
     return out
+
+
+def extra_checks(ctx):
+    """Cross-check of the trusted extraction: the same model extracted WITHOUT the zarith mapping (ExtrOcamlBasic only:
+    Coq's binary integers in OCaml) must print the same results as the fast zarith-mapped oracle on a sample of cases."""
+    import os
+    import random
+    import sys
+    sys.path.insert(0, os.path.join(os.path.dirname(os.path.abspath(__file__)), ".."))
+    import runner
+    info = {"pure_extraction_sample": 0, "pure_extraction_mismatches": 0}
+    viol = []
+    if not ctx.get("oracle"):
+        return {"violations": viol, "info": info}
+    os.makedirs(os.path.join(runner.OCAML, "gen_c01pure"), exist_ok=True)
+    with runner.Lock():
+        rc, out, dt = runner.coq_make(["extract/ExtractC01Pure.vo"])
+        if rc != 0:
+            return {"violations": [{"kind": "pure-extraction-build-failed", "detail": out[-800:], "no_input": True}], "info": info}
+        rc, out, exe, dt = runner.ocaml_build("gen_c01pure", "c01pure.ml")
+        if rc != 0:
+            return {"violations": [{"kind": "pure-oracle-build-failed", "detail": out[-800:], "no_input": True}], "info": info}
+    rng = random.Random(ctx["seed"] + 17)
+    ops = ("new", "add", "sub", "mul", "neg", "inv", "pow", "from_u128", "from_i64", "to_i64", "montyred", "xmul", "xinv")
+    pool = [c for k, c in cases("quick", rng) if c.split(" ", 1)[0] in ops]
+    rng.shuffle(pool)
+    sample = pool[:3000 if ctx["tier"] == "quick" else 30000]
+    lines = ["%d %s" % (i, c) for i, c in enumerate(sample)]
+    a, _, _ = runner.run_lines(ctx["oracle"], [], lines, 900)
+    b, _, _ = runner.run_lines(exe, [], lines, 900)
+    if a is None or b is None:
+        return {"violations": [{"kind": "pure-extraction-run-failed", "no_input": True}], "info": info}
+    bad = 0
+    for i, c in enumerate(sample):
+        x, y = a.get(str(i)), b.get(str(i))
+        if x is not None and x.startswith("SPECDIFF"):
+            continue
+        if x != y:
+            bad += 1
+            if len(viol) < 3:
+                viol.append({"kind": "extraction-cross-check", "case": c, "impl": "zarith-mapped: %s" % x, "model": "pure: %s" % y,
+                             "why": "the zarith-mapped extraction and the pure extraction of the same model disagree"})
+    info["pure_extraction_sample"] = len(sample)
+    info["pure_extraction_mismatches"] = bad
+    return {"violations": viol, "info": info}
